@@ -68,6 +68,9 @@ type env struct {
 	tables  map[string]map[string]*blockRef
 	esc     func(string) string
 	log     *[]string
+	blockDepth int // > 0 while a block body or a yielded content runs (per executed template)
+	rangeDepth int // number of range bodies currently running (per executed template)
+	retCount   int // number of return statements executed so far
 	mapPerm int // which permutation of 2-entry maps to use
 	sawMap2 bool
 	depth   int
@@ -488,7 +491,8 @@ func (e *env) stmt(s Stmt) {
 		}
 		oSc, oCont, oCtx, oFile := e.sc, e.cont, e.ctx, e.file
 		e.sc, e.cont, e.file = c.sc, c.outer, c.file
-		restore := func() { e.sc, e.cont, e.ctx, e.file = oSc, oCont, oCtx, oFile }
+		restore := func() { e.sc, e.cont, e.ctx, e.file = oSc, oCont, oCtx, oFile; e.blockDepth-- }
+		e.blockDepth++
 		func() {
 			defer restore()
 			if s.Ctx != nil {
@@ -505,7 +509,11 @@ func (e *env) stmt(s Stmt) {
 		if v == nil {
 			panic(Unspec("return of nil"))
 		}
+		if e.blockDepth > 0 && e.quirk("return-dropped-in-block-or-content") {
+			return
+		}
 		e.ret, e.retSet = v, true
+		e.retCount++
 	default:
 		panic(fmt.Sprintf("refjet: unknown stmt %T", s))
 	}
@@ -518,7 +526,9 @@ func (e *env) invoke(b *blockRef, args []Param, ctxExpr Expr, contentBody []Stmt
 	if needScope {
 		e.push()
 	}
+	e.blockDepth++
 	defer func() {
+		e.blockDepth--
 		e.ctx, e.cont, e.file = oCtx, oCont, oFile
 		if needScope {
 			e.pop()
@@ -546,8 +556,12 @@ func (e *env) invoke(b *blockRef, args []Param, ctxExpr Expr, contentBody []Stmt
 		if given[a.Name] {
 			panic(Unspec("yield argument given twice"))
 		}
-		if mentions(a.Val, pnames) {
-			panic(Unspec("argument expression mentions a parameter name"))
+		var earlier []string
+		for n := range given {
+			earlier = append(earlier, n)
+		}
+		if mentions(a.Val, earlier) {
+			panic(Unspec("argument expression mentions the name of an earlier argument"))
 		}
 		given[a.Name] = true
 	}
@@ -695,6 +709,9 @@ func contentReads(l []Stmt, names []string) bool {
 }
 
 func (e *env) rangeStmt(s *Range) {
+	if e.retSet {
+		panic(Unspec("range reached after a return has executed"))
+	}
 	x := e.eval(s.X)
 	it := e.iterate(x, s)
 	if !it.hasIndex && s.K != "" && s.V != "" {
@@ -737,7 +754,11 @@ func (e *env) rangeStmt(s *Range) {
 		before := e.retSet
 		saveRet := e.ret
 		e.retSet = false
-		e.list(s.Body)
+		e.rangeDepth++
+		func() {
+			defer func() { e.rangeDepth-- }()
+			e.list(s.Body)
+		}()
 		returned := e.retSet
 		if !returned {
 			e.ret, e.retSet = saveRet, before
@@ -867,7 +888,12 @@ func (e *env) include(nameX, ctxX Expr, at interface{}, rel bool, optional bool)
 	}
 	root := e.rootOf(f, 0)
 	e.file = root.Name
+	rc := e.retCount
 	e.list(root.Body)
+	if e.retCount != rc && e.rangeDepth > 0 {
+		// whether a return inside an included template ends the includer's loop is not fixed anywhere
+		panic(Unspec("return executed in an included template while the includer is inside a range"))
+	}
 	return true
 }
 
